@@ -574,13 +574,13 @@ def _run_schedule(params: dict) -> dict:
 # module API
 
 def cases(tier: str, seed: int) -> list[dict]:
-    n_batches = 300 if tier == 'quick' else 4800
+    n_batches = 300 if tier == 'quick' else 20000
     n_batches = max(n_batches, -(-len(_ENUM) // PAIRS_PER_BATCH))
     out: list[dict] = []
     for i in range(n_batches):
         out.append({'kind': 'paths', 'case': i, 'seed': seed, 'start': i * PAIRS_PER_BATCH, 'n': PAIRS_PER_BATCH})
     # workload B: interleavings of 2-3 downloads of equally named files (vf/c09sched.py)
-    n_sched = 600 if tier == 'quick' else 8000
+    n_sched = 600 if tier == 'quick' else 40000
     for i in range(n_sched):
         out.append({'kind': 'schedule', 'case': len(out), 'seed': seed, 'i': i})
     return out
